@@ -115,6 +115,13 @@ DriveOut drive_reader(const Task &t, const Bytes &archive, const DriveOpts &o) {
 		if (!fired_before && !g_sim.fail_fired && !o.by_name) out.alloc_fail_detail = "stream creation failed without an injected fault";
 		// a FILE the caller opened is the caller's to close; one the library opened by name is the library's
 		if (!o.by_name && src->fp && !src->closed) fclose(src->fp);
+		if (o.by_name) {
+			// the chained idiom of callers that do not look at the stream first (src/main.c is one): a reader made from the
+			// failed stream, released at once
+			LibScope ls("reader_new");
+			LHAReader *r0 = lha_reader_new(nullptr);
+			if (r0) lha_reader_free(r0);
+		}
 	}
 	if (st) {
 		fired_before = g_sim.fail_fired;
